@@ -6,7 +6,10 @@ PROP = {
   "saml2_tophat.response:StatusResponse._validate_destination",
   "saml2_tophat.response:StatusResponse._verify",
   "saml2_tophat.response:AuthnResponse.check_subject_confirmation_in_response_to",
-  "saml2_tophat.response:AuthnResponse.loads"
+  "saml2_tophat.response:AuthnResponse.loads",
+  "saml2_tophat.response:AuthnResponse._assertion",
+  "saml2_tophat.response:AuthnResponse.get_subject",
+  "saml2_tophat.response:AuthnResponse.verify_recipient"
  ],
  "level": "proof",
  "id": "C05"
